@@ -100,6 +100,10 @@ CLAIMED = {
             "The five FromStr implementations are interpreted symbolically (from the type-checked HIR) over templates of Name holes and literal delimiters taken from the RFC's five forms and from the Display implementations' decoded format templates: Display prints the form, parse(print(c)) == c with every field restored, SchemaCoordinate::from_str picks the right variant, near-miss templates (empty names, extra/missing delimiters, junk before `)`) are rejected, every split-off piece is consumed exactly once by a Name check / sub-parser / literal comparison, and no delimiter is a Name character. Lookup: decision tables over the six ExtendedType variants for lookup_ref and the three typed lookups, map/key/error of the straight-line lookups, argument order of every lookup -> lookup_ref call (all parameters are Names, so a swap type-checks), argument_by_name, and variant dispatch.",
             "Given Name::try_from == the Name grammar (C10) and IndexMap::get semantics. The interpretation is symbolic over templates and is exact because delimiters are outside the Name alphabet; strings that are not UTF-8 sequences of names and delimiters are rejected by Name::try_from and are not enumerated.",
             "symbolic interpretation of HIR (straight-line string-splitting parsers) over hole/literal templates + format-template decoding + MIR decision tables per enum variant and access-path provenance of call arguments", False),
+    "C26": ("other",
+            "Decision tables and provenance facts of the executor: try_nullify's 3-row table and, for every call of it, that the type used to nullify a value is the type the value was completed with (list item vs list, field definition); argument-coercion errors and null leaves follow the field/type nullability; data = result.ok(); every field error (39 sites) is built with the enclosing position's path or the list-index-extended path, paths are extended by the response key / list index exactly once and reversed once; DoesFragmentTypeApply as a table over ExtendedType; CollectFields' skip/include defaults, grouping by response key in an insertion-ordered map, first-visit / type-condition guards and unchanged recursion arguments; eval_if_arg; result coercion of the five built-in scalars and enums.",
+            "Response equality with a reference executor, merging of sub-selections and resolver behaviour are not decided. The rules read async fns from typed HIR (names intact) and plain fns from MIR.",
+            "decision-table extraction (MIR path enumeration), dominating-edge facts, and access-path / local-identity provenance over typed HIR of the async executor functions", False),
 }
 
 NOT_APPLICABLE = {
